@@ -10,7 +10,7 @@ import tempfile
 HERE = os.path.dirname(os.path.abspath(__file__))
 VERIF = os.path.dirname(HERE)
 REPO = os.environ.get("VERIF_REPO", "/repo")
-SCENARIO_PROPS = {"C01", "C02", "C03", "C04", "C05", "C06", "C07", "C08", "C09", "C10", "C11", "C12", "C13", "C15", "C16", "C17", "C18", "C20"}
+SCENARIO_PROPS = {"C01", "C02", "C03", "C04", "C05", "C06", "C07", "C08", "C09", "C10", "C11", "C12", "C13", "C15", "C16", "C17", "C18", "C19", "C20"}
 _cache = {}
 
 
@@ -24,6 +24,9 @@ def run_scenarios(pid, seed, budget=25.0):
         return _cache[key]
     if pid == "C20":
         _cache[key] = run_py_scenarios(seed)
+        return _cache[key]
+    if pid == "C19":
+        _cache[key] = run_py_differential(seed)
         return _cache[key]
     d = tempfile.mkdtemp(prefix="vr-")
     try:
@@ -60,7 +63,37 @@ def run_scenarios(pid, seed, budget=25.0):
         shutil.rmtree(d, ignore_errors=True)
 
 
-def run_py_scenarios(seed):
+def build_replay_crate(d):
+    """build /verif/replay against the tree under check in directory d; returns (binary path or None, note)"""
+    shutil.copytree(os.path.join(VERIF, "replay", "src"), os.path.join(d, "src"))
+    open(os.path.join(d, "Cargo.toml"), "w").write(
+        '[package]\nname = "oxmpl-replay"\nversion = "0.1.0"\nedition = "2021"\n\n[dependencies]\noxmpl = { path = "%s/oxmpl" }\nrand = "0.9.1"\n\n[workspace]\n' % REPO)
+    shutil.copy(os.path.join(REPO, "Cargo.lock"), os.path.join(d, "Cargo.lock"))
+    env = dict(os.environ)
+    env["CARGO_NET_OFFLINE"] = "true"
+    env["CARGO_TARGET_DIR"] = os.path.join(d, "target")
+    b = subprocess.run(["cargo", "build", "--offline", "-q"], cwd=d, env=env, capture_output=True, text=True, timeout=900)
+    if b.returncode != 0:
+        return None, "replay crate does not build against this tree: " + b.stderr[-400:]
+    return os.path.join(d, "target", "debug", "oxmpl-replay"), "ok"
+
+
+def run_py_differential(seed):
+    """C19 (bounded): the core's answers (`oxmpl-replay pyref`) against the real oxmpl_py module on mirrored problems"""
+    d = tempfile.mkdtemp(prefix="vrdf-")
+    try:
+        binp, note = build_replay_crate(d)
+        if binp is None:
+            return [], note
+        r = subprocess.run([binp, "pyref", str(seed)], capture_output=True, text=True, timeout=600)
+        ref = os.path.join(d, "pyref.jsonl")
+        open(ref, "w").write("\n".join(l for l in r.stdout.splitlines() if l.startswith("{")) + "\n")
+        return run_py_scenarios(seed, script="c19_scenarios.py", extra=[ref])
+    finally:
+        shutil.rmtree(d, ignore_errors=True)
+
+
+def run_py_scenarios(seed, script="c20_scenarios.py", extra=()):
     """C20: build the REAL oxmpl-py extension module from the tree under check and run replay/py/c20_scenarios.py under the
     real CPython (the interpreter pyo3 builds against is the `python3` on PATH)."""
     d = tempfile.mkdtemp(prefix="vrpy-")
@@ -76,7 +109,7 @@ def run_py_scenarios(seed):
         shutil.copy(so, os.path.join(d, "mod", "oxmpl_py.so"))
         env["PYTHONPATH"] = os.path.join(d, "mod")
         try:
-            r = subprocess.run(["python3", os.path.join(VERIF, "replay", "py", "c20_scenarios.py"), str(seed)], capture_output=True, text=True, timeout=600, env=env, cwd=os.path.join(d, "mod"))
+            r = subprocess.run(["python3", os.path.join(VERIF, "replay", "py", script), str(seed)] + list(extra), capture_output=True, text=True, timeout=600, env=env, cwd=os.path.join(d, "mod"))
             out, note = r.stdout, "python scenario family ran against the real oxmpl_py module (exit %d)" % r.returncode
             if r.returncode not in (0, 1):
                 return [], "python scenario family did not run: " + r.stderr[-300:]
